@@ -65,7 +65,7 @@ def c04_compress(report, cfg):
                     report.ok("R4.1", ikey, sample={"fn": "%s::put_block" % mod, "machine": machine, "config": cfg, "atoms": bv.n_atoms()})
                 else:
                     report.violated("R4.1", ikey, "BLAKE-%d compression on %s: chaining word %d bit %d differs from the specification (got %s)"
-                                    % (variant, machine, i // w, i % w, bv.show_bit(got[i], 2)))
+                                    % (variant, machine, i // w, i % w, bv.show_bit(got[i], 2)[:200]), graphs=(got, exp))
             engine_guard(go, report, "R4.1", ikey)
     return n
 
@@ -186,7 +186,7 @@ def c04_finalize(report, cfg, positions=None, only=None):
                 i = bv.first_diff(got, exp)
                 if i is not None:
                     report.violated("R4.3", ikey, "%s finalisation with %d buffered bytes: digest byte %d differs from the specified padding/length/counter sequence"
-                                    % (name, p, i // 8))
+                                    % (name, p, i // 8), graphs=(got, exp))
                     return False
                 return True
             r = engine_guard(go, report, "R4.3", ikey)
